@@ -680,6 +680,13 @@ func (s *SquareBracket) Evaluation(
 
 	lastT := p.GetLastEvaluatedT()
 
+	// no expression is in progress (statement start, first argument): the
+	// bracket opens an array literal, the value of the previous statement is
+	// not indexed
+	if !p.IsParsingExpression() {
+		return e.makeArray(p, ctx, t)
+	}
+
 	// a[:b]
 	if lastT.IsHashType() && p.IsParsingExpression() && !t.IsBeforeSpace {
 		return e.hashReferenceEvaluation(p, ctx, base.MakeUnknown(), &lastT)
